@@ -203,10 +203,51 @@ def equilibria(ctx):
 
 
 # ------------------------------------------------------------------------------------------------ profiles
-class Prof:
-    """a 1-D profile given either as a Python callable (quadratic) or as a 2xN array"""
+CONTAINERS = ['list', 'tuple', 'ndarray', 'int', 'view_T', 'strided', 'float32']
 
-    def __init__(self, rng, scale=1.0, kind=None):
+
+def make_array(xs, ys, container):
+    """the 2xN profile (xs, ys) in one of the containers a caller may use"""
+    n = len(xs)
+    if container == 'list':
+        return [list(xs), list(ys)]
+    if container == 'tuple':
+        return (tuple(xs), tuple(ys))
+    if container == 'ndarray':
+        return np.array([xs, ys])
+    if container == 'int':
+        return np.array([xs, ys], dtype=np.int64)
+    if container == 'float32':
+        return np.array([xs, ys], dtype=np.float32)
+    if container == 'view_T':
+        a = np.ascontiguousarray(np.array([xs, ys]).T)      # N x 2, C order
+        return a.T                                          # 2 x N non-contiguous (transposed) view
+    if container == 'strided':
+        big = np.full((2, 2 * n), 777.0)
+        big[:, ::2] = [xs, ys]
+        return big[:, ::2]                                  # 2 x N non-contiguous slice
+    raise ValueError(container)
+
+
+def knots(rng, n, scale, container):
+    """declared knots of a 2xN profile covering psi_n in [0, 1]; values exactly representable in the container's dtype"""
+    if container == 'int':
+        xs = [float(i) for i in range(n)]
+        ys = [float(rng.randint(-200, 200)) for _ in xs]
+    else:
+        xs = sorted(set([0.0, 1.0] + [round(rng.uniform(0.02, 0.98), 3) for _ in range(n - 2)]))
+        ys = [scale * rng.uniform(-2, 2) for _ in xs]
+        if container == 'float32':
+            xs = [float(np.float32(x)) for x in xs]
+            ys = [float(np.float32(y)) for y in ys]
+    return xs, ys
+
+
+class Prof:
+    """a 1-D profile given either as a Python callable (quadratic) or as a 2xN array (N >= 2, any container).
+    sref: the declared interpolant (S oracle);  ref: the interpolant through the rows the *model* selects (K)"""
+
+    def __init__(self, rng, scale=1.0, kind=None, n=None, container=None):
         from raysect.core.math.function.float import Interpolator1DArray
         self.kind = kind or rng.choice(['fn', 'array'])
         if self.kind == 'fn':
@@ -214,46 +255,118 @@ class Prof:
             if rng.random() < 0.15:
                 self.c = (self.c[0], 0.0, 0.0)
             self.arg = quad(self.c)
-            self.ref = self.arg
+            self.ref = self.sref = self.fn_twin = self.arg
             self.desc = dict(kind='fn', c=self.c)
         else:
-            n = rng.randint(4, 9)
-            xs = sorted(set([0.0, 1.0] + [round(rng.uniform(0.02, 0.98), 3) for _ in range(n - 2)]))
-            ys = [scale * rng.uniform(-2, 2) for _ in xs]
-            self.arg = [xs, ys] if rng.random() < 0.5 else np.array([xs, ys])
-            self.ref = Interpolator1DArray(np.array(xs), np.array(ys), 'cubic', 'none', 0)
-            self.desc = dict(kind='array', x=xs, y=ys)
+            container = container or rng.choice(CONTAINERS)
+            n = n or rng.choice([2, 2, 3, 3, 4, 5, 6, 7, 8, 9])
+            xs, ys = knots(rng, n, scale, container)
+            self.xs, self.ys = xs, ys
+            self.arg = make_array(xs, ys, container)
+            self.sref = Interpolator1DArray(np.array(xs), np.array(ys), 'cubic', 'none', 0)
+            self.fn_twin = self.sref          # the same profile handed over as a Function1D
+            self.ref = None                   # bound by bind_model_rows
+            self.desc = dict(kind='array', container=container, n=len(xs), x=xs, y=ys)
+
+    def rows_line(self):
+        a = np.array(self.arg, np.float64)
+        return 'rows %d %d %d %s' % (a.ndim, a.shape[0], a.shape[1], fs(a.ravel()))
 
     def coeffs(self, psin_model, needed):
-        """tokens for the driver: the quadratic itself, or (array) the value of the raysect interpolator at the
-        model's psi_n (external function supplied as a value)"""
+        """tokens for the driver: the quadratic itself, or (array) the value of the raysect interpolator -- built from the
+        rows the model selected -- at the model's psi_n (external function supplied as a value)"""
         if self.kind == 'fn':
             return self.c
         if not needed:
             return (NAN, 0.0, 0.0)
-        st, v = call(self.ref, psin_model)
+        st, v = call(self.ref, psin_model) if self.ref is not None else ('E', None)
         return (v if st == 'ok' else NAN, 0.0, 0.0)
+
+    def linear2(self, x):
+        """N = 2: the declared interpolant is the straight line through the two knots"""
+        (x0, x1), (y0, y1) = self.xs, self.ys
+        return y0 + (y1 - y0) * (x - x0) / (x1 - x0)
+
+
+def model_rows(o):
+    """parse the driver's answer to a `rows` line: None (rejected) or (xrow, frow)"""
+    t = o.split()
+    if t[0] == 'E':
+        return None
+    nx, nf = int(t[0]), int(t[1])
+    v = [b2f(q) for q in t[2:]]
+    return v[:nx], v[nx:nx + nf]
+
+
+def bind_model_rows(ctx, profs):
+    from raysect.core.math.function.float import Interpolator1DArray
+    profs = [p for p in profs if p.kind == 'array']
+    outs = ctx.driver([p.rows_line() for p in profs]) if profs else []
+    for p, o in zip(profs, outs):
+        rows = model_rows(o)
+        ctx.count('profile-array:N=%d:%s' % (p.desc['n'], p.desc['container']))
+        if rows is None:
+            continue
+        st, f = call(Interpolator1DArray, np.array(rows[0]), np.array(rows[1]), 'cubic', 'none', 0)
+        p.ref = f if st == 'ok' else None
 
 
 class ProfSet:
-    def __init__(self, rng, ec, k=None):
+    FORCED = {0: dict(kind='fn'),
+              1: [dict(kind='array', n=2, container=c_) for c_ in ('list', 'tuple', 'int', 'view_T')],
+              2: [dict(kind='array', n=3, container=c_) for c_ in ('ndarray', 'strided', 'float32', 'list')],
+              3: [dict(kind='array', n=2, container=c_) for c_ in ('ndarray', 'float32', 'strided', 'tuple')]}
+
+    def __init__(self, rng, ec, k=None, ctx=None):
         from raysect.core import Vector3D
-        self.te = Prof(rng, 100.0, kind={0: 'fn', 1: 'array'}.get(k))
+        forced = self.FORCED.get(k)
+        kw = [forced] * 4 if isinstance(forced, dict) else (forced or [{}] * 4)
+        self.te = Prof(rng, 100.0, **kw[0])
         self.out = rng.choice([0.0, -1.0, 7.5, rng.uniform(-10, 10)])
-        self.tor = Prof(rng, 1e4)
-        self.pol = Prof(rng, 1e3)
-        self.nrm = Prof(rng, 1e2)
+        self.tor = Prof(rng, 1e4, **kw[1])
+        self.pol = Prof(rng, 1e3, **kw[2])
+        self.nrm = Prof(rng, 1e2, **kw[3])
+        self.profs = [self.te, self.tor, self.pol, self.nrm]
         self.ov = rng.choice([(0.0, 0.0, 0.0), (1.0, -2.0, 3.0), (rng.uniform(-5, 5), rng.uniform(-5, 5), rng.uniform(-5, 5))])
         eq = ec.eq
         default_out = self.out == 0.0 and rng.random() < 0.5
         default_ov = self.ov == (0.0, 0.0, 0.0) and rng.random() < 0.5
-        a2 = (self.te.arg,) if default_out else (self.te.arg, self.out)
-        av = (self.tor.arg, self.pol.arg, self.nrm.arg) if default_ov else (self.tor.arg, self.pol.arg, self.nrm.arg, Vector3D(*self.ov))
-        self.f2 = eq.map2d(*a2)
-        self.f3 = eq.map3d(*a2)
-        self.v2 = eq.map_vector2d(*av)
-        self.v3 = eq.map_vector3d(*av)
+        o2 = () if default_out else (self.out,)
+        ovv = () if default_ov else (Vector3D(*self.ov),)
+        self.has_array = any(p.kind == 'array' for p in self.profs)
         self.desc = dict(te=self.te.desc, outside=self.out, tor=self.tor.desc, pol=self.pol.desc, nrm=self.nrm.desc, outside_vector=self.ov)
+        self.ok = True
+
+        def build(name, *a):
+            st, f = call(getattr(eq, name), *a)
+            if st != 'ok':
+                self.ok = False
+                if ctx is not None:
+                    ctx.fail('C12:%s:valid-profile-rejected' % name, '%s rejected valid profiles (%s: %s) on %s: %s'
+                             % (name, st, f, ec.name, {k_: {q: w for q, w in v_.items() if q != 'c'} if isinstance(v_, dict) else v_ for k_, v_ in self.desc.items()}),
+                             dict(equilibrium=ec.desc, profiles=self.desc, mapping=name))
+                return None
+            return f
+        self.f2 = build('map2d', self.te.arg, *o2)
+        self.f3 = build('map3d', self.te.arg, *o2)
+        self.v2 = build('map_vector2d', self.tor.arg, self.pol.arg, self.nrm.arg, *ovv)
+        self.v3 = build('map_vector3d', self.tor.arg, self.pol.arg, self.nrm.arg, *ovv)
+        # the same profiles handed over as functions: must give identical mappings
+        if self.has_array:
+            self.f2_fn = build('map2d', self.te.fn_twin, *o2)
+            self.f3_fn = build('map3d', self.te.fn_twin, *o2)
+            self.v2_fn = build('map_vector2d', self.tor.fn_twin, self.pol.fn_twin, self.nrm.fn_twin, *ovv)
+            self.v3_fn = build('map_vector3d', self.tor.fn_twin, self.pol.fn_twin, self.nrm.fn_twin, *ovv)
+
+
+def twin_check(ctx, rc, name, f_arr, f_fn, args, got):
+    """array profile == the same knots handed over as a function, for every mapping"""
+    st, v = call(f_fn, *args)
+    v = (vt(v) if hasattr(v, 'x') else v) if st == 'ok' else st
+    same = (v == got) or (isinstance(v, float) and isinstance(got, float) and math.isnan(v) and math.isnan(got))
+    if not same:
+        ctx.fail('C12:%s:array-vs-function' % name, '%s%r: profile given as 2xN array -> %r, the same knots given as Interpolator1DArray -> %r on %s'
+                 % (name, args, got, v, rc['ec'].name), where(rc))
 
 
 # ------------------------------------------------------------------------------------------------ points
@@ -290,7 +403,7 @@ def stream_equilibria(ctx):
     rng = ctx.rng
     ecs = equilibria(ctx)
     npts = ctx.n(900, 3000)
-    nsets = ctx.n(3, 5)
+    nsets = ctx.n(4, 6)
 
     # pass 0: the model normalises every grid node; raysect interpolates the model's grid
     lines0 = []
@@ -310,7 +423,7 @@ def stream_equilibria(ctx):
         ec.poly = PolygonMask2D(eq.lcfs_polygon)
         ec.tri_edges = triangulation_edges(eq.lcfs_polygon)
         ec.dr, ec.dz = eq._calculate_differentials(eq.r_data, eq.z_data, eq.psi_data)
-        ec.sets = [ProfSet(rng, ec, k_) for k_ in range(nsets)]
+        ec.sets = [ps_ for ps_ in (ProfSet(rng, ec, k_, ctx) for k_ in range(nsets)) if ps_.ok]
         ec.bpol_max = 0.0
         pts = sample_points(rng, ec, npts)
         for (r, z) in pts:
@@ -332,6 +445,9 @@ def stream_equilibria(ctx):
                     ctx.count('3d-point-outside-domain-skipped')
                     continue
             recs.append(dict(ec=ec, r=rho, z=z, x=x, y=y, phi=phi, ps=rng.choice(ec.sets), three=True))
+
+    # which rows of each array profile reach the interpolator is decided by the model (profileOfArray)
+    bind_model_rows(ctx, [p for ec in ecs for st_ in ec.sets for p in st_.profs])
 
     # pass 1: raysect values at the points; the model's psi_n (needed to evaluate array profiles)
     for rc in recs:
@@ -415,6 +531,11 @@ def compare_2d(ctx, rc, line, mt):
     have = lambda *ks: all(obs[k_] != 'E' for k_ in ks)   # noqa
     if have('psin') and not obs['psin'] >= 0.0:
         ctx.fail('C12:psi_normalised:negative', 'psi_normalised(%r, %r) = %r < 0 on %s' % (r, z, obs['psin'], name), where(rc))
+    if ps.has_array:
+        if have('m2'):
+            twin_check(ctx, rc, 'map2d', ps.f2, ps.f2_fn, (r, z), obs['m2'])
+        if have('v2'):
+            twin_check(ctx, rc, 'map_vector2d', ps.v2, ps.v2_fn, (r, z), obs['v2'])
     if have('psin', 'inside', 'psi'):
         oracle_scalar(ctx, rc, obs)
     if have('psin', 'inside', 'b', 'p', 'n', 't'):
@@ -455,9 +576,13 @@ def oracle_scalar(ctx, rc, obs):
     if obs['m2'] == 'E':
         return
     if ins == 1.0:
-        st, want = call(ps.te.ref, psin)
+        st, want = call(ps.te.sref, psin)
         if st != 'ok' or not (obs['m2'] == want or close(obs['m2'], want, 1e-13)):
-            ctx.fail('C12:map2d:inside-value', 'map2d(%r, %r) = %r, profile(psi_n = %r) = %r on %s' % (r, z, obs['m2'], psin, want, ec.name), where(rc))
+            ctx.fail('C12:map2d:inside-value', 'map2d(%r, %r) = %r, profile(psi_n = %r) = %r (profile %s) on %s'
+                     % (r, z, obs['m2'], psin, want, {k_: v_ for k_, v_ in ps.te.desc.items() if k_ != 'c'}, ec.name), where(rc))
+        if ps.te.kind == 'array' and len(ps.te.xs) == 2 and not close(obs['m2'], ps.te.linear2(psin), 1e-12, 1e-12 * max(abs(y_) for y_ in ps.te.ys)):
+            ctx.fail('C12:map2d:two-knot-profile-not-linear', 'map2d(%r, %r) = %r, straight line through the knots %r at psi_n = %r gives %r on %s'
+                     % (r, z, obs['m2'], (ps.te.xs, ps.te.ys), psin, ps.te.linear2(psin), ec.name), where(rc))
     else:
         if obs['m2'] != ps.out:
             ctx.fail('C12:map2d:outside-value', 'map2d(%r, %r) = %r outside the LCFS, value_outside_lcfs = %r on %s'
@@ -529,7 +654,7 @@ def oracle_velocity(ctx, rc, obs, v, frame):
             ctx.fail('C12:%s:outside-value' % tag, '%s = %r outside the LCFS, value_outside_lcfs = %r at %r on %s'
                      % (tag, v, ps.ov, (rc.get('x'), rc.get('y'), r, z), ec.name), where(rc))
         return
-    wt, wp, wn = call(ps.tor.ref, psin)[1], call(ps.pol.ref, psin)[1], call(ps.nrm.ref, psin)[1]
+    wt, wp, wn = call(ps.tor.sref, psin)[1], call(ps.pol.sref, psin)[1], call(ps.nrm.sref, psin)[1]
     scale = max(abs(wt), abs(wp), abs(wn), 1e-300)
     if math.hypot(rc['b'][0], rc['b'][2]) == 0.0:
         wp = wn = 0.0
@@ -557,6 +682,9 @@ def compare_3d(ctx, rc, line, mt):
         ctx.disagreements += 1
         ctx.broke('correspondence', 'C12 stream eq3', dict(line=line, model=[model_m3, model_v3], implementation=[m3, v3], input=where(rc)))
     # ---- S
+    if ps.has_array:
+        twin_check(ctx, rc, 'map3d', ps.f3, ps.f3_fn, (x, y, z), m3)
+        twin_check(ctx, rc, 'map_vector3d', ps.v3, ps.v3_fn, (x, y, z), v3)
     obs = {}
     for key, f in (('psin', eq.psi_normalised), ('inside', eq.inside_lcfs), ('b', eq.b_field), ('p', eq.poloidal_vector),
                    ('n', eq.surface_normal), ('t', eq.toroidal_vector), ('m2', ps.f2), ('v2', ps.v2)):
@@ -892,6 +1020,140 @@ def velocity_oracle(bv, comps, got):
     return (ok, sig, 'field %r: components (tor, pol, nrm) = %r prescribed %r' % (bv, have, comps))
 
 
+# ------------------------------------------------------------------------------------------------ stream (c)
+def gen_shapes(rng):
+    """(label, object handed to the mapping, declared knots (xs, ys) if it is a valid 2xN profile else None)"""
+    out = []
+    for n in (2, 3, 4, 6):
+        for c in CONTAINERS:
+            xs, ys = knots(rng, n, 100.0, c)
+            out.append(('2x%d:%s' % (n, c), make_array(xs, ys, c), (xs, ys)))
+    out += [
+        ('1xN', [[0.0, 0.5, 1.0]], None),
+        ('1xN:ndarray', np.array([[0.0, 0.5, 1.0]]), None),
+        ('Nx2:N=3', [[0.0, 5.0], [0.5, 7.0], [1.0, 9.0]], None),
+        ('Nx2:N=5', np.array([[0.0, 0.25, 0.5, 0.75, 1.0], [5.0, 6.0, 7.0, 8.0, 9.0]]).T, None),
+        ('Nx2:N=3:first-row-decreasing', [[1.0, 0.5], [0.5, 7.0], [0.0, 9.0]], None),
+        ('3xN', [[0.0, 0.5, 1.0], [5.0, 7.0, 9.0], [1.0, 1.0, 1.0]], None),
+        ('3x2', [[0.0, 1.0], [5.0, 9.0], [1.0, 1.0]], None),
+        ('1-D', [0.0, 0.5, 1.0], None),
+        ('0-D', 3.0, None),
+        ('3-D', np.zeros((2, 3, 2)), None),
+        ('ragged', [[0.0, 0.5, 1.0], [5.0, 7.0]], None),
+        ('2x0', [[], []], None),
+        ('2x1', [[0.0], [1.0]], None),
+        ('2xN:repeated-abscissa', [[0.0, 0.5, 0.5, 1.0], [1.0, 2.0, 3.0, 4.0]], None),
+        ('2xN:decreasing-abscissa', [[1.0, 0.5, 0.0], [1.0, 2.0, 3.0]], None),
+        ('2xN:range-misses-psin', [[0.9, 0.95, 1.0], [1.0, 2.0, 3.0]], None),
+    ]
+    return out
+
+
+def stream_shapes(ctx, ecs):
+    """boundary and invalid profile shapes through every mapping: accepted / rejected identically by model and code;
+    valid 2xN shapes give the declared interpolant at psi_n (N = 2: the straight line)"""
+    from raysect.core.math.function.float import Interpolator1DArray
+    rng = ctx.rng
+    targets = ecs[:1] + ecs[2:2 + ctx.n(1, 4)]
+    zero = lambda x: 0.0   # noqa
+    jobs = []
+    for ec in targets:
+        eq = ec.eq
+        ax = eq.magnetic_axis
+        r, z = ax.x + 0.04, ax.y + 0.03
+        for dr_, dz_ in ((0.04, 0.03), (0.1, 0.05), (0.2, 0.0), (-0.1, 0.05), (0.02, 0.01), (0.3, 0.1)):
+            r, z = ax.x + dr_, ax.y + dz_
+            if ec.r[0] < r < ec.r[-1] and eq.inside_lcfs(r, z) == 1.0 and 0.02 < eq.psi_normalised(r, z) < 0.85:
+                break
+        phi = rng.uniform(-math.pi, math.pi)
+        x, y = r * math.cos(phi), r * math.sin(phi)
+        rho = math.sqrt(x * x + y * y)
+        pt2, pt3 = (r, z), (x, y, z)
+        info = {}
+        for key, (rr, zz) in (('2', (r, z)), ('3', (rho, z))):
+            psin, ins = eq.psi_normalised(rr, zz), eq.inside_lcfs(rr, zz)
+            p, n = vt(eq.poloidal_vector(rr, zz)), vt(eq.surface_normal(rr, zz))
+            info[key] = (psin, ins, p, n)
+        if info['2'][1] != 1.0 or info['3'][1] != 1.0 or not (0.0 < info['2'][0] < 0.85):
+            ctx.count('shape-stream-point-not-inside-skipped')
+            continue
+        rh, ph = (x / rho, y / rho), (-y / rho, x / rho)
+        to3 = lambda a: (a[0] * rh[0] + a[1] * ph[0], a[0] * rh[1] + a[1] * ph[1], a[2])   # noqa
+        basis2 = ((0.0, 1.0, 0.0), info['2'][2], info['2'][3])
+        basis3 = tuple(to3(b_) for b_ in ((0.0, 1.0, 0.0), info['3'][2], info['3'][3]))
+        for label, obj, decl in gen_shapes(rng):
+            for mapping in ('map2d', 'map3d', 'map_vector2d:0', 'map_vector2d:1', 'map_vector2d:2',
+                            'map_vector3d:%d' % rng.randrange(3)):
+                name, _, pos = mapping.partition(':')
+                three = name.endswith('3d')
+                psin = info['3' if three else '2'][0]
+                pt = pt3 if three else pt2
+                if pos == '':
+                    st, f = call(getattr(eq, name), obj, -1.0)
+                    proj = lambda v: v   # noqa
+                else:
+                    a = [zero, zero, zero]
+                    a[int(pos)] = obj
+                    st, f = call(getattr(eq, name), *a)
+                    bvec = (basis3 if three else basis2)[int(pos)]
+                    proj = lambda v, bvec=bvec: vdot(vt(v), bvec)   # noqa
+                if st == 'ok':
+                    st, v = call(f, *pt)
+                    got = proj(v) if st == 'ok' else st
+                else:
+                    got = st
+                jobs.append(dict(ec=ec, label=label, obj=obj, decl=decl, mapping=mapping, name=name, psin=psin, got=got, pt=pt))
+    # model: which rows reach the interpolator
+    lines = []
+    for j in jobs:
+        st, a = call(np.array, j['obj'], np.float64)
+        j['arr'] = a if st == 'ok' else None
+        if st != 'ok':
+            lines.append('rows 0 0 0')          # numpy itself refuses (ragged): placeholder, not used
+        elif a.ndim == 2:
+            lines.append('rows 2 %d %d %s' % (a.shape[0], a.shape[1], fs(a.ravel())))
+        else:
+            lines.append('rows %d 0 0' % a.ndim)
+    outs = ctx.driver(lines) if lines else []
+    for j, o in zip(jobs, outs):
+        ctx.traces += 1
+        ctx.count('shape:' + j['label'].split(':')[0])
+        ctx.case(key=('shape', j['ec'].name, j['label'], j['mapping']))
+        got, psin = j['got'], j['psin']
+        if j['arr'] is None:
+            want = 'ValueError'                  # numpy conversion error, before any cherab logic
+        else:
+            rows = model_rows(o)
+            if rows is None:
+                want = 'IndexError' if j['arr'].ndim < 3 else 'rejected'
+            else:
+                st, itp = call(Interpolator1DArray, np.array(rows[0]), np.array(rows[1]), 'cubic', 'none', 0)
+                if st != 'ok':
+                    want = st
+                else:
+                    st, v = call(itp, psin)
+                    want = v if st == 'ok' else st
+        if isinstance(want, str):
+            agree = (isinstance(got, str) and (want == 'rejected' or got == want))
+        else:
+            agree = (not isinstance(got, str)) and abs(got - want) <= 1e-11 * max(1.0, abs(want), 200.0)
+        desc = dict(equilibrium=j['ec'].desc, shape=j['label'], mapping=j['mapping'], point=j['pt'], psin=psin,
+                    profile=np.array(j['arr']).tolist() if j['arr'] is not None else repr(j['obj']))
+        if not agree:
+            ctx.disagreements += 1
+            ctx.broke('correspondence', 'C12 stream shape', dict(model=str(want), implementation=str(got), input=desc))
+        if j['decl'] is not None:
+            # S: a valid 2xN profile must be accepted and give the declared interpolant at psi_n
+            xs, ys = j['decl']
+            ref = Interpolator1DArray(np.array(xs), np.array(ys), 'cubic', 'none', 0)(psin)
+            lin = (ys[0] + (ys[1] - ys[0]) * (psin - xs[0]) / (xs[1] - xs[0])) if len(xs) == 2 else ref
+            if isinstance(got, str) or abs(got - ref) > 1e-11 * 200.0 or abs(got - lin) > 1e-9 * 200.0:
+                ctx.fail('C12:%s:array-profile-value' % j['name'],
+                         '%s with a %s profile x = %r y = %r at %r (psi_n = %r): %s component = %r, declared interpolant gives %r on %s'
+                         % (j['mapping'], j['label'], xs, ys, j['pt'], psin, 'mapped' if j['name'].startswith('map2') or j['name'] == 'map3d' else 'prescribed',
+                            got, ref, j['ec'].name), desc)
+
+
 # ------------------------------------------------------------------------------------------------ run
 def run(ctx):
     ctx.rule = ('equilibria: bundled example (psi_lcfs > psi_axis), Generomak (psi_lcfs < psi_axis), synthetic Solov\'ev grids with both signs, '
@@ -920,6 +1182,7 @@ def run(ctx):
             replay_point(ctx, rp, quiet=True)
 
     ecs = stream_equilibria(ctx)
+    stream_shapes(ctx, ecs)
     stream_helpers(ctx)
     ctx.extra['equilibria'] = [dict(name=ec.name, sign=ec.sign, grid=list(ec.psi.shape), bpol_max=ec.bpol_max) for ec in ecs]
     ctx.extra['float_gap_note'] = ('PoloidalFieldVector/FluxSurfaceNormal/FluxCoordToCartesian raise ZeroDivisionError when b_x^2+b_z^2 underflows '
